@@ -392,13 +392,19 @@ func classComposition(c *engine.Ctx) {
 			if as, ok := s.(*ast.AssignStmt); ok && len(as.Rhs) == 1 {
 				return types.ExprString(as.Rhs[0])
 			}
+			if r, ok := s.(*ast.ReturnStmt); ok && len(r.Results) == 1 {
+				return types.ExprString(r.Results[0]) // the table moved into a helper that returns the class
+			}
 		}
 		return ""
 	}
 	for _, fi := range c.P.FuncsOf(c.P.Pkg(pkgProposalCtl)) {
-		if strings.HasSuffix(fi.Name(), ".reconcileApply") {
-			// the inner switch is the one whose cases assign failureType
-			ast.Inspect(fi.Decl.Body, func(n ast.Node) bool {
+		if !strings.HasSuffix(fi.Name(), ".reconcileApply") {
+			continue
+		}
+		for _, h := range c.P.WithHelpers(fi, 3, false) {
+			// the inner switch is the one whose cases assign (or return) a Failure_Type
+			ast.Inspect(h.Decl.Body, func(n ast.Node) bool {
 				if sw, ok := n.(*ast.SwitchStmt); ok && sw.Tag != nil && codeToFail == nil {
 					t := engine.SwitchTable(&ast.BlockStmt{List: []ast.Stmt{sw}}, "", assignConst)
 					for _, v := range t {
@@ -442,9 +448,13 @@ func classComposition(c *engine.Ctx) {
 		return ""
 	}
 	for _, fi := range c.P.FuncsOf(c.P.Pkg(pkgNbGnmi)) {
-		if strings.HasSuffix(fi.Name(), "Server.Set") {
-			ast.Inspect(fi.Decl.Body, func(n ast.Node) bool {
-				if sw, ok := n.(*ast.SwitchStmt); ok && sw.Tag != nil && failToNew == nil && strings.Contains(types.ExprString(sw.Tag), "Failure") {
+		if !strings.HasSuffix(fi.Name(), "Server.Set") {
+			continue
+		}
+		for _, h := range c.P.WithHelpers(fi, 3, false) {
+			info := h.Pkg.TypesInfo
+			ast.Inspect(h.Decl.Body, func(n ast.Node) bool {
+				if sw, ok := n.(*ast.SwitchStmt); ok && sw.Tag != nil && failToNew == nil && info.TypeOf(sw.Tag) != nil && strings.HasSuffix(info.TypeOf(sw.Tag).String(), "Failure_Type") {
 					failToNew = engine.SwitchTable(&ast.BlockStmt{List: []ast.Stmt{sw}}, "", newOrAssigned)
 				}
 				return true
